@@ -1,5 +1,9 @@
 import LunaVerif.Lemmas.C37LiveAck
 import LunaVerif.Lemmas.C37LiveCrd
+import LunaVerif.Lemmas.C37LiveBad
+import LunaVerif.Lemmas.C37LiveRty
+import LunaVerif.Lemmas.C37LiveLxu
+import LunaVerif.Lemmas.C37LiveKa
 /-!
 # C37 — liveness of the header receiver (owed link commands are eventually sent, with explicit bounds)
 
@@ -17,6 +21,17 @@ length `K·R` contains `R` ready cycles (`fair_ready_ge`), which gives the bound
   its sequence number) within `B1 = K·(40 + 4·r)` cycles, `r` = number of `retry_required` pulses in the
   window (each puts one LRTY ahead of the LGOOD).
 * `lcrd_within` — every buffer freed so far has its LCRD on the wire within `B2 = K·(52 + 4·r)` cycles.
+* `lbad_within` — every corrupted header noticed so far has its LBAD on the wire within `B3 = K·(44 + 4·r)`.
+* `lrty_within` — a pending LRTY completes within `B4 = 28·K` cycles (highest priority: only the session in
+  progress is ahead of it).  `lrty_request_latched`: a `retry_required` pulse makes the LRTY pending unless an
+  LRTY completes in that very cycle (as coded the completion's clear wins; the request is merged with it).
+* `lxu_within`, `keepalive_within` — lowest priorities: a pending LXU / keepalive completes within
+  `K·(48 + 16·b)` / `K·(52 + 20·b)` cycles, `b` = number of cycles of the window that bring new higher-priority
+  work (header accepted, buffer freed, corrupted header, `retry_required`; for the keepalive also
+  `reject_power_state`).  Under saturating traffic these two can be postponed for as long as the traffic
+  lasts — that is the priority order of DISPATCH_COMMAND as coded, so the bound necessarily counts `b`.
+* `wire_lrty`, `wire_lxu`, `wire_keepalive` — what the counts count: a command of that kind completing on
+  the source stream.
 -/
 namespace LunaVerif.HeaderRx
 
@@ -46,6 +61,94 @@ theorem lcrd_within (c : Config) (K : Nat) (pre post : List In) (e : EnvOk c ini
   rw [runG_append]
   exact lcrd_live c _ _ _ hI (by have := hI.hcti; omega) post e2 (fair_ready_ge K _ post hf hK hl)
 
+/-- **C37 liveness (3): LBAD.**  Every corrupted header noticed during `pre` has been answered by a completed
+LBAD at the end of every fair continuation `post` of length at least `K·(44 + 4·#retry_required)`. -/
+theorem lbad_within (c : Config) (K : Nat) (pre post : List In) (e : EnvOk c init Ghost.init (pre ++ post))
+    (hK : 0 < K) (hf : FairOk K 0 post)
+    (hl : K * (44 + 4 * countIn (·.retryRequired) post) ≤ post.length) :
+    (runG c init Ghost.init pre).2.bads ≤ (runG c init Ghost.init (pre ++ post)).2.lbads := by
+  obtain ⟨e1, e2⟩ := envOk_append c pre post _ _ e
+  have hI := inv_reachable c pre e1
+  rw [runG_append]
+  refine lbad_live c _ _ _ hI ?_ post e2 (fair_ready_ge K _ post hf hK hl)
+  have := hI.hlbc
+  simp only [b2]; omega
+
+/-- the command the dispatch FSM asks the generator for, per state -/
+def cmdOf (c : Config) : Fsm → Nat
+  | .dispatch => 0 | .sendAcks => LGOOD | .issueCredits => LCRD | .sendLbad => LBAD
+  | .sendLrty => LRTY | .sendKeepalive => if c.downstream then LDN else LUP | .sendLxu => LXU
+
+theorem genCmd_eq (c : Config) (s : State) : genCmd c s = cmdOf c s.fsm := by
+  unfold genCmd cmdOf; cases s.fsm <;> rfl
+
+theorem cmdOf_inj (c : Config) (f f' : Fsm) (hf : f ≠ .dispatch) (hf' : f' ≠ .dispatch)
+    (h : cmdOf c f = cmdOf c f') : f = f' := by
+  cases f <;> cases f' <;> cases hd : c.downstream <;>
+    simp_all [cmdOf, LGOOD, LCRD, LBAD, LRTY, LXU, LUP, LDN]
+
+/-- under the invariant, a command of the kind of dispatch state `f` completes on the wire iff the dispatch
+FSM is in `f` and the generator's command word is taken -/
+theorem wire_cmd {c : Config} {s : State} {g : Ghost} (i : In) (h : Inv c s g) (f : Fsm) (hf : f ≠ .dispatch) :
+    wire s i (cmdOf c f) = (s.fsm == f && done s i) := by
+  unfold wire done
+  by_cases hg : s.gen = .command
+  · have h1 := (h.hgen1 (by simp [hg])).1
+    have hnd : s.fsm ≠ .dispatch := fun hd => by have := h.hgen0 hd; simp [hg] at this
+    rw [h1, genCmd_eq]
+    by_cases hs : s.fsm = f
+    · simp [hs, hg]
+    · have e1 : (s.fsm == f) = false := by simpa using hs
+      have e2 : (cmdOf c s.fsm == cmdOf c f) = false := by
+        simp only [beq_eq_false_iff_ne, ne_eq]
+        exact fun hc => hs (cmdOf_inj c _ _ hnd hf hc)
+      simp [e1, e2]
+  · have hb : (s.gen == Gen.command) = false := by cases hx : s.gen <;> simp_all
+    simp [hb]
+
+/-- a command completing on the wire is an LRTY iff the dispatch FSM is in SEND_LRTY -/
+theorem wire_lrty {c : Config} {s : State} {g : Ghost} (i : In) (h : Inv c s g) :
+    wire s i LRTY = (s.fsm == .sendLrty && done s i) := wire_cmd i h .sendLrty (by simp)
+
+/-- a command completing on the wire is an LXU iff the dispatch FSM is in SEND_LXU -/
+theorem wire_lxu {c : Config} {s : State} {g : Ghost} (i : In) (h : Inv c s g) :
+    wire s i LXU = (s.fsm == .sendLxu && done s i) := wire_cmd i h .sendLxu (by simp)
+
+/-- a command completing on the wire is the keepalive (LUP, or LDN on a downstream-facing port) iff the
+dispatch FSM is in SEND_KEEPALIVE -/
+theorem wire_keepalive {c : Config} {s : State} {g : Ghost} (i : In) (h : Inv c s g) :
+    wire s i (if c.downstream then LDN else LUP) = (s.fsm == .sendKeepalive && done s i) :=
+  wire_cmd i h .sendKeepalive (by simp)
+
+/-- **C37 liveness (4a): LRTY.**  If an LRTY is pending after `pre`, one completes on the wire during every
+fair continuation of at least `28·K` cycles. -/
+theorem lrty_within (c : Config) (K : Nat) (pre post : List In) (e : EnvOk c init Ghost.init (pre ++ post))
+    (hK : 0 < K) (hf : FairOk K 0 post) (hl : K * 28 ≤ post.length)
+    (hp : (runG c init Ghost.init pre).1.lrty = true) :
+    1 ≤ lrtysRun c (runG c init Ghost.init pre).1 0 post := by
+  obtain ⟨e1, e2⟩ := envOk_append c pre post _ _ e
+  exact lrty_live c _ _ (inv_reachable c pre e1) hp post e2 (fair_ready_ge K _ post hf hK hl)
+
+/-- **C37 liveness (4b): LXU.**  If an LXU is pending after `pre`, one completes on the wire during every fair
+continuation of at least `K·(48 + 16·b)` cycles, `b` = cycles of the continuation that bring new
+higher-priority work. -/
+theorem lxu_within (c : Config) (K : Nat) (pre post : List In) (e : EnvOk c init Ghost.init (pre ++ post))
+    (hK : 0 < K) (hf : FairOk K 0 post)
+    (hl : K * (48 + 16 * badXCount c (runG c init Ghost.init pre).1 (runG c init Ghost.init pre).2 post) ≤ post.length)
+    (hp : (runG c init Ghost.init pre).1.lxu = true) :
+    1 ≤ lxusRun c (runG c init Ghost.init pre).1 0 post := by
+  obtain ⟨e1, e2⟩ := envOk_append c pre post _ _ e
+  exact lxu_live c _ _ (inv_reachable c pre e1) hp post e2 (fair_ready_ge K _ post hf hK hl)
+
+/-- **C37 liveness (4c): keepalive.**  Same for a pending keepalive, `K·(52 + 20·b)` cycles. -/
+theorem keepalive_within (c : Config) (K : Nat) (pre post : List In) (e : EnvOk c init Ghost.init (pre ++ post))
+    (hK : 0 < K) (hf : FairOk K 0 post)
+    (hl : K * (52 + 20 * badKCount c (runG c init Ghost.init pre).1 (runG c init Ghost.init pre).2 post) ≤ post.length)
+    (hp : (runG c init Ghost.init pre).1.keepalive = true) :
+    1 ≤ kasRun c (runG c init Ghost.init pre).1 0 post := by
+  obtain ⟨e1, e2⟩ := envOk_append c pre post _ _ e
+  exact keepalive_live c _ _ (inv_reachable c pre e1) hp post e2 (fair_ready_ge K _ post hf hK hl)
+
 /-! ## Non-vacuity -/
 
 def decFairOk (K : Nat) : (w : Nat) → (is : List In) → Decidable (FairOk K w is)
@@ -73,5 +176,22 @@ example : EnvOk ⟨true, false⟩ init Ghost.init (livePre ++ livePost) ∧ Fair
     (runG ⟨true, false⟩ init Ghost.init livePre).2.delivered.length = 1 ∧
     (runG ⟨true, false⟩ init Ghost.init livePre).2.lgoods.length = 1 ∧
     (runG ⟨true, false⟩ init Ghost.init livePre).2.lcrds.length = 4 := by decide +kernel
+
+
+/-- bring-up, then a corrupted header (LBAD owed), with retry / keepalive / power-state requests pending -/
+def livePre2 : List In :=
+  List.replicate 20 (cyc false 0 0) ++ sendHdr hdrBad ++
+  [{ cyc false 0 0 with retryRequired := true, keepaliveRequired := true, rejectPower := true }]
+
+example : EnvOk ⟨true, false⟩ init Ghost.init (livePre2 ++ livePost) ∧
+    (runG ⟨true, false⟩ init Ghost.init livePre2).2.bads = 1 ∧
+    (runG ⟨true, false⟩ init Ghost.init livePre2).2.lbads = 0 ∧
+    (runG ⟨true, false⟩ init Ghost.init livePre2).1.lrty = true ∧
+    (runG ⟨true, false⟩ init Ghost.init livePre2).1.lxu = true ∧
+    (runG ⟨true, false⟩ init Ghost.init livePre2).1.keepalive = true ∧
+    3 * (52 + 20 * badKCount ⟨true, false⟩ (runG ⟨true, false⟩ init Ghost.init livePre2).1
+      (runG ⟨true, false⟩ init Ghost.init livePre2).2 livePost) ≤ livePost.length ∧
+    lrtysRun ⟨true, false⟩ (runG ⟨true, false⟩ init Ghost.init livePre2).1 0 livePost = 1 ∧
+    kasRun ⟨true, false⟩ (runG ⟨true, false⟩ init Ghost.init livePre2).1 0 livePost = 1 := by decide +kernel
 
 end LunaVerif.HeaderRx
